@@ -16,13 +16,14 @@ import (
 // Handle records the invocation and everything it reads until the stream ends.
 
 type stubCall struct {
-	Name   string
-	Local  string
-	Remote string
-	Data   []byte
-	Done   bool // Handle returned
-	Step   int
-	ReadErr string
+	Name        string
+	Local       string
+	Remote      string
+	Data        []byte
+	Done        bool // Handle returned
+	Step        int
+	ReadErr     string
+	ClosedFirst bool // the stub ended the connection itself (close marker)
 }
 
 type stubHubT struct {
@@ -57,6 +58,9 @@ func (h *stubHubT) snapshot() []stubCall {
 	}
 	return out
 }
+
+// stubCloseMarker in the data read makes an echo-mode stub return (the service closes first).
+const stubCloseMarker = "[close-now]"
 
 type stubService struct {
 	Name   string `toml:"name"`
@@ -93,6 +97,14 @@ func (s *stubService) Handle(ctx context.Context, conn net.Conn) error {
 			stubHub.mu.Unlock()
 			if echo {
 				conn.Write(buf[:n])
+			}
+			if echo && bytes.Contains(c.Data, []byte(stubCloseMarker)) {
+				// the service ends the connection on its own
+				stubHub.mu.Lock()
+				c.ReadErr = "closed by the service"
+				c.ClosedFirst = true
+				stubHub.mu.Unlock()
+				break
 			}
 		}
 		if err != nil {
